@@ -56,7 +56,7 @@ fn run(pieces: &[&[u8]]) -> Vec<Ev> {
 
 fn main() {
     // Codec::default() starts the date service, which needs a local task set
-    let ok = actix_rt::System::new().block_on(async { let a = checks(); let b = server::check().await; a & b });
+    let ok = actix_rt::System::new().block_on(async { let a = checks(); let b = server::check().await; let c = h2srv::check().await; a & b & c });
     std::process::exit(if ok { 0 } else { 1 });
 }
 
@@ -476,6 +476,103 @@ mod server {
             }
         }
         println!("BOUNDED-OK h1_server cases={}", n);
+        true
+    }
+}
+
+// ---------------------------------------------------------------- the HTTP/2 server end to end over an in-memory connection (C08)
+mod h2srv {
+    use std::time::Duration;
+    use actix_http::{body::{BodyStream, BoxBody}, HttpService, Request, Response, StatusCode};
+    use actix_service::{fn_service, Service, ServiceFactory};
+    use bytes::Bytes;
+
+    fn data(n: usize) -> Vec<u8> { (0..n).map(|i| b"abcdefghij"[(i * 3) % 10]).collect() }
+
+    async fn handle(req: Request) -> Result<Response<BoxBody>, std::convert::Infallible> {
+        let path = req.path().to_owned();
+        let p: Vec<&str> = path.trim_start_matches('/').split('/').collect();
+        Ok(match p[0] {
+            "s" => { let mut r = Response::ok().set_body(Bytes::from(data(p[1].parse().unwrap()))).map_into_boxed_body(); r.headers_mut().insert(actix_http::header::CONNECTION, actix_http::header::HeaderValue::from_static("close")); r }
+            "c" => {
+                let n: usize = p[1].parse().unwrap(); let k: usize = p[2].parse().unwrap();
+                let pieces: Vec<Result<Bytes, std::io::Error>> = data(n).chunks(k.max(1)).map(|c| Ok(Bytes::copy_from_slice(c))).collect();
+                Response::ok().set_body(BodyStream::new(futures_util::stream::iter(pieces))).map_into_boxed_body()
+            }
+            // a bodiless status whose handler nevertheless set a Content-Length and a streaming body
+            "n" => { let mut r = Response::new(StatusCode::NO_CONTENT).set_body(BodyStream::new(futures_util::stream::iter(vec![Ok::<_, std::io::Error>(Bytes::from_static(b"x"))]))).map_into_boxed_body(); r.headers_mut().insert(actix_http::header::CONTENT_LENGTH, actix_http::header::HeaderValue::from_static("1")); r }
+            _ => Response::new(StatusCode::NOT_FOUND).map_into_boxed_body(),
+        })
+    }
+
+    struct Got { status: u16, content_length: Option<usize>, hop_headers: bool, body: Vec<u8> }
+
+    async fn exchange(window: u32, reqs: &[(&str, &str)]) -> Result<Vec<Got>, String> {
+        let (client_io, server_io) = tokio::io::duplex(1 << 20);
+        let factory = HttpService::build().h2(fn_service(handle));
+        let svc = factory.new_service(()).await.map_err(|_| "service init".to_owned())?;
+        actix_rt::spawn(async move { let _ = svc.call((server_io, None)).await; });
+        let (mut send, conn) = h2::client::Builder::new().initial_window_size(window).initial_connection_window_size(window.max(65_535)).handshake::<_, Bytes>(client_io).await.map_err(|e| format!("handshake: {}", e))?;
+        actix_rt::spawn(async move { let _ = conn.await; });
+        // all requests are started before any response is read: streams are concurrent
+        let mut pending = Vec::new();
+        for (method, path) in reqs {
+            let req = http::Request::builder().method(*method).uri(format!("http://mem.test{}", path)).body(()).unwrap();
+            send = send.ready().await.map_err(|e| format!("ready: {}", e))?;
+            let (fut, _) = send.send_request(req, true).map_err(|e| format!("send: {}", e))?;
+            pending.push(fut);
+        }
+        let mut out = Vec::new();
+        for fut in pending {
+            let resp = fut.await.map_err(|e| format!("response: {}", e))?;
+            let (parts, mut body) = resp.into_parts();
+            let mut bytes = Vec::new();
+            while let Some(chunk) = body.data().await {
+                let c = chunk.map_err(|e| format!("data: {}", e))?;
+                bytes.extend_from_slice(&c);
+                // hand the window back a little at a time
+                let mut left = c.len();
+                while left > 0 { let k = left.min(3); let _ = body.flow_control().release_capacity(k); left -= k; actix_rt::task::yield_now().await; }
+            }
+            let h = &parts.headers;
+            out.push(Got { status: parts.status.as_u16(), content_length: h.get("content-length").map(|v| v.to_str().unwrap().parse().unwrap()),
+                hop_headers: h.contains_key("connection") || h.contains_key("transfer-encoding") || h.contains_key("keep-alive") || h.contains_key("upgrade"), body: bytes });
+        }
+        Ok(out)
+    }
+
+    pub async fn check() -> bool {
+        let kinds: Vec<(&str, String, u16, Vec<u8>)> = vec![
+            ("GET", "/s/0".into(), 200, data(0)), ("GET", "/s/5".into(), 200, data(5)), ("GET", "/s/40000".into(), 200, data(40000)), ("HEAD", "/s/5".into(), 200, vec![]),
+            ("GET", "/c/10/3".into(), 200, data(10)), ("GET", "/c/20000/4096".into(), 200, data(20000)), ("HEAD", "/c/10/3".into(), 200, vec![]), ("GET", "/n".into(), 204, vec![]),
+        ];
+        let mut n = 0usize;
+        for window in [1u32, 7, 100, 65_535] {
+            let mut sets: Vec<Vec<usize>> = (0..kinds.len()).map(|i| vec![i]).collect();
+            for a in 0..kinds.len() { for b in 0..kinds.len() { sets.push(vec![a, b]); } }
+            for set in &sets {
+                if window == 1 && set.iter().any(|i| kinds[*i].3.len() > 1000) { continue; }      // byte-sized windows only for the small bodies
+                n += 1;
+                let reqs: Vec<(&str, &str)> = set.iter().map(|i| (kinds[*i].0, kinds[*i].1.as_str())).collect();
+                let got = match actix_rt::time::timeout(Duration::from_secs(30), exchange(window, &reqs)).await {
+                    Ok(Ok(g)) => g,
+                    Ok(Err(e)) => { println!("BOUNDED-FAIL h2_server input=(window {}, requests {:?}) expected=responses got={}", window, reqs, e); return false; }
+                    Err(_) => { println!("BOUNDED-FAIL h2_server input=(window {}, requests {:?}) expected=responses got=no answer within 30 s", window, reqs); return false; }
+                };
+                for (k, i) in set.iter().enumerate() {
+                    let (_, _, status, body) = &kinds[*i];
+                    let g = &got[k];
+                    let cl_ok = match g.content_length { None => true, Some(v) => kinds[*i].0 == "HEAD" || v == g.body.len() };
+                    let bodiless_ok = *status != 204 || g.content_length.is_none();
+                    if g.status != *status || g.body != *body || !cl_ok || !bodiless_ok || g.hop_headers {
+                        println!("BOUNDED-FAIL h2_server input=(window {}, requests {:?}, response {}) expected=(status {}, {} body bytes, a matching content-length if any, none for 204, no connection-specific headers) got=(status {}, {} body bytes, content-length {:?}, connection-specific headers {})",
+                            window, reqs, k, status, body.len(), g.status, g.body.len(), g.content_length, g.hop_headers);
+                        return false;
+                    }
+                }
+            }
+        }
+        println!("BOUNDED-OK h2_server cases={}", n);
         true
     }
 }
